@@ -1,8 +1,20 @@
 package lsp
 
+import "github.com/styrainc/regal/pkg/report"
+
 // VerifRegoVersionForURI: the Rego version the server would parse the document with
 func (l *LanguageServer) VerifRegoVersionForURI(fileURI string) string {
 	return l.regoVersionForURI(fileURI).String()
 }
 
 func (l *LanguageServer) VerifClient() int { return int(l.clientIdentifier) }
+
+// VerifRangeForViolation: the LSP range the server publishes for a violation location
+func VerifRangeForViolation(row, col int, end *[2]int, text *string) [4]uint {
+	v := report.Violation{Location: report.Location{Row: row, Column: col, Text: text}}
+	if end != nil {
+		v.Location.End = &report.Position{Row: end[0], Column: end[1]}
+	}
+	r := getRangeForViolation(v)
+	return [4]uint{r.Start.Line, r.Start.Character, r.End.Line, r.End.Character}
+}
